@@ -117,8 +117,31 @@ class Repo:
             # same qualname under version guards in one module -> ambiguous
             raise AnalysisError(f"anchor {qual!r} is ambiguous: " + ", ".join(f.where for f in cands))
         if not cands:
+            inh = self._inherited(qual, hint)
+            if inh is not None:
+                return inh
             raise AnalysisError(f"anchor {qual!r} not found (hint={hint})")
         return cands[0]
+
+    def _inherited(self, qual: str, hint: str | None, depth: int = 0):
+        """`Cls.meth` where Cls no longer defines meth itself but a base class of the same module does (an override that only
+        repeated the base implementation was removed): the method that runs is the base's"""
+        if qual.count(".") != 1 or depth > 3:
+            return None
+        cn, mn = qual.split(".")
+        try:
+            rel, cd = self.cls(cn, hint)
+        except AnalysisError:
+            return None
+        for b in cd.bases:
+            bn = ast.unparse(b).split("[")[0].split(".")[-1]
+            cands = [f for f in self.funcs.get(f"{bn}.{mn}", []) if f.module == rel]
+            if len(cands) == 1:
+                return cands[0]
+            r = self._inherited(f"{bn}.{mn}", rel, depth + 1) if any(c_[0] == rel for c_ in self.classes.get(bn, [])) else None
+            if r is not None:
+                return r
+        return None
 
     def has_func(self, qual: str, hint: str | None = None) -> bool:
         try:
